@@ -14,7 +14,12 @@ ALPHA = [("s", "a", None, []), ("e", "a", None), ("s", "b", None, [("k", "v")]),
          ("s", "pre", None, []), ("e", "pre", None), ("s", "script", None, []), ("e", "script", None),
          ("s", "rt", None, []), ("s", "a", "p", []), ("e", "a", "p"), ("s", "br", None, []), ("e", "zz", None),
          ("d", "x"), ("d", " "), ("d", "\n "), ("d", ""), ("x", None), ("x", 4), ("x", 1)]
-CUSTOM = {"void": ["a"], "pw": ["b"], "containers": {"a": 8, "pre": 10}}
+# symbols used only in the random longer strings (they would blow up the exhaustive part)
+EXTRA = [("d", "\x0c"), ("d", "\x0b "), ("d", "\t\r"), ("d", "\xa0"), ("e", "rt", None), ("s", "template", None, []),
+         ("e", "template", None), ("s", "textarea", None, []), ("e", "textarea", None), ("e", "[document]", None),
+         ("s", "b", "q", []), ("e", "b", "q"), ("x", 6), ("x", 9)]
+# 'pre' is both whitespace-preserving and a string container here; 'a' is void
+CUSTOM = {"void": ["a"], "pw": ["b", "pre"], "containers": {"a": 8, "pre": 10}}
 CONFIGS = [("html", T.HTML_CFG), ("xml", T.XML_CFG), ("custom", CUSTOM)]
 
 
@@ -106,7 +111,9 @@ def run(ctx):
                 for combo in itertools.product(alpha, repeat=n):
                     seqs.append(list(combo))
         for _ in range(3000 if ctx.thorough else 500):
-            seqs.append([ctx.rng.choice(alpha) for _ in range(ctx.rng.randint(5, 14))])
+            seqs.append([ctx.rng.choice(alpha + EXTRA) for _ in range(ctx.rng.randint(5, 14))])
+        for combo in itertools.product(EXTRA[:4] + [("d", "x"), ("s", "pre", None, []), ("e", "pre", None), ("s", "b", None, []), ("e", "b", None)], repeat=3):
+            seqs.append(list(combo))
         for i in range(0, len(seqs), 5000):
             check(ctx, cname, cfg, seqs[i:i + 5000])
         ctx.sample({"config": cname, "events": seqs[len(seqs) // 2]})
